@@ -66,6 +66,8 @@ class Sess:
         self.w = World(clock, mk_I, mk_A)
         self.acker = False
         self.dying = 0
+        self.concurrent = False
+        self.concurrent_sends = 0
         self.accepted = {"I": [], "A": []}
         self.open_ids = {"I": [], "A": []}
         self.refused = 0
@@ -75,6 +77,38 @@ class Sess:
         self.trace = []
         self.spin = None
         self.logon_errors = []
+
+    def enable_concurrent_sender(self):
+        """a second task of the same application sends a new message while a retransmission (PossDup frame) of that side is suspended in
+        drain(): once per connection generation and side"""
+        import asyncio
+        from asyncfix import FIXMessage
+        from asyncfix.errors import FIXConnectionError
+        self.concurrent = True
+        fired = set()
+
+        async def call(side):
+            tap = self.w.tap[side]
+            last = tap.items[-1][1] if tap.items else b""
+            key = (side, self.w.connects)
+            if b"\x0143=Y\x01" not in last or b"\x0135=D\x01" not in last or key in fired:
+                return
+            fired.add(key)
+            self.cnt += 1
+            ident = f"{side.lower()}{self.cnt}c"
+
+            async def live():
+                try:
+                    await self.w.ep[side].send_msg(FIXMessage("D", {11: ident, 55: "X"}))
+                    self.accepted[side].append(ident)
+                    self.concurrent_sends += 1
+                except FIXConnectionError:
+                    self.refused += 1
+                except Exception:
+                    self.open_ids[side].append(ident)
+            asyncio.get_running_loop().create_task(live())
+            await asyncio.sleep(0)
+        self.w.drain_call["I"] = self.w.drain_call["A"] = call
 
     def enable_ackers(self):
         """applications that answer every order from inside on_message (an execution report back on the same connection)"""
@@ -124,7 +158,10 @@ class Sess:
         self.cnt += 1
         ident = f"{side.lower()}{self.cnt}"
         try:
-            await self.w.ep[side].send_msg(FIXMessage("D", {11: ident, 55: "X"}))
+            # mostly orders; now and then the other message types an application sends and receives through the same API
+            mt = "D" if self.cnt % 7 else ("n", "3", "j", "B", "8")[(self.cnt // 7) % 5]
+            body = {11: ident, 55: "X"} if mt in ("D", "8") else {11: ident, 58: "text", 45: 1, 372: "D", 380: 0}
+            await self.w.ep[side].send_msg(FIXMessage(mt, body))
             self.accepted[side].append(ident)
             r = "ok"
         except FIXConnectionError:
@@ -294,7 +331,7 @@ def shortened_gapfill(s):
     return False
 
 
-async def run_history(acc, clock, actions_fn, cid, exhaustive=False, ackers=False):
+async def run_history(acc, clock, actions_fn, cid, exhaustive=False, ackers=False, concurrent=False):
     """actions_fn(sess, step) -> action tuple or None to stop.  Returns Sess."""
     from asyncfix.connection import ConnectionState as CS
     from vf.sim.net import SpinAbort, advance, settle
@@ -303,6 +340,8 @@ async def run_history(acc, clock, actions_fn, cid, exhaustive=False, ackers=Fals
     try:
         if ackers:
             s.enable_ackers()
+        if concurrent:
+            s.enable_concurrent_sender()
         await s.start()
         if not await s.pump():
             return s, "setup"
@@ -587,7 +626,7 @@ def run_shard(spec, acc):
                 continue
             rnd = random.Random(f"{spec['seed']}:C07:{shard}:{c}")
             fn = random_actions(rnd, maxbreaks=rnd.choice([1, 2, 2, 3, 5]))
-            s, how = await run_history(acc, clock, fn, cid, ackers=rnd.random() < 0.35)
+            s, how = await run_history(acc, clock, fn, cid, ackers=rnd.random() < 0.35, concurrent=rnd.random() < 0.35)
             acc.case(tuple(s.trace), nontrivial=s.breaks_with_traffic > 0)
             if s.breaks_with_traffic:
                 acc.oracle("breaks-with-traffic-in-flight")
@@ -599,6 +638,7 @@ def run_shard(spec, acc):
             acc.add("reconnects", s.w.connects - 1)
             acc.add("histories_with_applications_replying_from_on_message", 1 if s.acker else 0)
             acc.add("connections_dying_under_a_handlers_reply", s.dying)
+            acc.add("new_messages_sent_by_another_task_during_a_retransmission", s.concurrent_sends)
             judge(acc, s, how, cid)
             if c < 2:
                 acc.sample({"trace": s.trace[:40], "end": how}, 2)
